@@ -125,6 +125,25 @@ func runC06(t *rapid.T, w *rep.Worker) {
 		for i, n := 0, rapid.IntRange(1, 5).Draw(t, "nprefix"); i < n; i++ {
 			switch rapid.IntRange(0, 6).Draw(t, "prefixop") {
 			case 6:
+				if rapid.IntRange(0, 15).Draw(t, "burst") == 0 {
+					// a long run of failing decodes of one damaged input into scratch messages: whatever a decoder
+					// counts, caches or pools across calls gets exercised well past the usual thresholds
+					ob := encodeDrawn(t, typ)
+					if len(ob) > 1 {
+						ob = wirex.Truncate(ob, rapid.IntRange(1, len(ob)-1).Draw(t, "burstcut"))
+					}
+					n := []int{300, 11000, 70000}[rapid.IntRange(0, 2).Draw(t, "burstn")]
+					scratch := typ.New()
+					fails := 0
+					for k := 0; k < n; k++ {
+						if r := unmarshal(scratch, ob, 0); r.err != nil || r.pan != nil {
+							fails++
+						}
+					}
+					step("process: %d decodes of one damaged input into a scratch message (%d failed)", n, fails)
+					w.Fault("burst_of_failing_decodes")
+					break
+				}
 				if d := shareBackingArray(t, dirty); d != "" {
 					step("destination: %s", d)
 					w.Fault("destination_fields_share_storage")
